@@ -20,7 +20,9 @@ PLACEMENTS = [['A', 'B'], [['A', 'B']], [['A'], 'B'], ['A', ['B']], [['A'], ['B'
               [[['A'], ['B']]]]
 
 
-def connect_case(tree, st, dt, any_inputs, second_pair=False, cache=False):
+def connect_case(tree, st, dt, any_inputs, second_pair=False, cache=False, hier=0):
+    """hier: 0 = flat entities; 1 / 2 = the connected entity 'e' is the second / first child of a parent entity whose other child
+    is of another model type (X, whose only attribute is the name 'zz' that model M does not have)"""
     paths = paths_of(tree)
     st, dt = T.SHORT[st], T.SHORT[dt]
 
@@ -75,7 +77,11 @@ def connect_case(tree, st, dt, any_inputs, second_pair=False, cache=False):
                                 rec(it, None)
                         else:
                             typ = st if it == 'A' else dt
-                            ents[it] = w.start('S', sim_id=it, typ=typ, any_inputs=(any_inputs and it == 'B')).M()
+                            if hier:
+                                par = w.start('S', sim_id=it, typ=typ, any_inputs=(any_inputs and it == 'B'), hier=hier).M()
+                                ents[it] = [c for c in par.children if c.eid == 'e'][0]
+                            else:
+                                ents[it] = w.start('S', sim_id=it, typ=typ, any_inputs=(any_inputs and it == 'B')).M()
                             ref.add_sim(it, paths[it], typ)
                 rec(tree, None)
                 kw = {}
@@ -125,8 +131,8 @@ def connect_case(tree, st, dt, any_inputs, second_pair=False, cache=False):
                 exp = [pair_reject(*p) for p in pairs]
                 from vk.tt import b_or, b_not
                 exp_any = b_or(*exp)
-                fp = [str(tree), st, dt, any_inputs, sa, da, weak, tsk, has_init, second_pair]
-                desc = f'tree={tree} {st}->{dt} any_inputs={any_inputs} pair={sa}->{da} weak={weak} time_shifted={ts} initial={has_init} pairs={pairs}'
+                fp = [str(tree), st, dt, any_inputs, sa, da, weak, tsk, has_init, second_pair, hier]
+                desc = f'tree={tree} {st}->{dt} any_inputs={any_inputs} pair={sa}->{da} weak={weak} time_shifted={ts} initial={has_init} pairs={pairs}' + (f' hierarchical entities (variant {hier})' if hier else '')
                 try:
                     w.connect(ents['A'], ents['B'], *pairs, **kw)
                     outcome = 'accepted'
@@ -292,6 +298,14 @@ def jobs(tier):
                                         'harness': 'vk.kernels.c11:connect_case',
                                         'params': {'tree': tree, 'st': st, 'dt': dt, 'any_inputs': anyi, 'second_pair': second, 'cache': cache},
                                         'budget_s': 300})
+    # the connected entities are children (of mixed model types) of a parent entity
+    for ti, tree in enumerate(PLACEMENTS if not q else PLACEMENTS[:2] + PLACEMENTS[4:5]):
+        for st in types:
+            for dt in types:
+                for anyi in (False, True):
+                    for hier in (1, 2):
+                        out.append({'id': f'conn|t{ti}|{st}>{dt}|any={int(anyi)}|hier={hier}', 'harness': 'vk.kernels.c11:connect_case',
+                                    'params': {'tree': tree, 'st': st, 'dt': dt, 'any_inputs': anyi, 'hier': hier}, 'budget_s': 300})
     for ti, tree in enumerate(PLACEMENTS):
         for st in types:
             for dt in types:
